@@ -13,7 +13,7 @@ ID = "C03"
 LEVEL = "exploration"
 RULE = (
     "Hypothesis draws profiles (closures, free arrays, constants), grid nx,ny in 2..10 (dx != dy), modes below/at/above/default, "
-    "1..4 ascending levels incl. surface and top, sign-changing sources with non-zero mean, background, on-grid tower, halo kind. "
+    "1..5 levels in any order incl. surface and top, sign-changing sources with non-zero mean, background, on-grid tower, halo kind. "
     "Oracles with halo=0 (whole periodic domain returned): mean_xy flux[k] == mean source; sum footprint[k] == 1; mean_xy conc[k] == "
     "bg - mean(q0)*R_k with R_k the trapezoidal resistance on the given nodes (or any value at least as close to the exact integral "
     "of dz/Kz, where that is known in closed form). Halo: S(q0, halo=H) == crop(S(zero-padded q0 on the enlarged domain, halo=0, "
@@ -43,9 +43,9 @@ def _case(draw):
     case["halo"] = draw(gen.halo(case, kinds=("none", "zero", "cells", "frac", "frac")))
     px, py, _ = gen.pad_widths(case, case["halo"]["value"])
     case["modes"] = draw(gen.modes(case, px, py))
-    lv = draw(gen.levels(nz, 1, 4))
+    lv = draw(gen.levels(nz, 1, 4, ascending=False))  # any order: each slot is judged by the height it reports
     if draw(st.booleans()):
-        lv = sorted(set(lv) | {0, nz - 1})
+        lv = list(dict.fromkeys(lv + [0, nz - 1]))
     case["levels"] = lv
     case["q"] = draw(gen.source(case["ny"], case["nx"], kinds=("sparse", "dense", "smooth", "delta")))
     case["tower"] = draw(gen.tower(case))
